@@ -99,6 +99,10 @@ def _nonlin_solver(fcn, x0, params,
 
         dx_norm = dx.norm()
         if dx_norm == 0:
+            if y_norm == 0:
+                # x is an exact root (the previous step landed on it): done
+                converge = True
+                break
             raise ValueError("Jacobian inversion yielded zero vector. "
                              "This indicates a bug in the Jacobian "
                              "approximation.")
